@@ -188,7 +188,11 @@ def step (d : DSt) (line : String) : DSt × String :=
         match keyNum k with
         | some kn =>
           match doStep d (.setStatus kn (statusCode st)) with
-          | some sp' => ({ d with sp := sp' }, "PATCHED")
+          | some sp' =>
+            -- the record's expirationTimeChanged flag is sticky: every save refreshes the expiration index
+            match Hv.Claim.step d.cfg sp' (.expIndex kn) with
+            | some sp2 => ({ d with sp := sp2 }, "PATCHED")
+            | none => ({ d with sp := sp' }, "PATCHED")
           | none => (d, "KEY_NOT_FOUND")
         | none => (d, "bad-op")
       | ["del", k] =>
